@@ -256,6 +256,30 @@ def matches(c):
 MULTI_CMDS = [['translate'], ['translate', '--phase', '1'], ['translate', '--genetic-code', 'mitov'], ['translate', '--ref-seq', 'ref']]
 
 
+def multi_codonalign(rng):
+    """`codonalign -f nt.fa` on a Phylip input holding several alignments of the SAME protein sequences (other gap placements,
+    other widths): the nucleotide sequences are read once and serve every alignment (cmd/codonalign.go loops over aligns.Achan)"""
+    from driver import multigen
+    aa = "ARNDCQEGHILKMFPSTWYV"
+    n = rng.randint(2, 4)
+    names = ["ref"] + ["s%d" % i for i in range(1, n)]
+    prots = {nm: "".join(rng.choice(aa) for _ in range(rng.randint(2, 6))) + rng.choice("EFILPQ") for nm in names}
+    als = []
+    for _ in range(rng.randint(2, 4)):
+        L = max(len(p) for p in prots.values()) + rng.randint(0, 3)
+        rows = []
+        for nm in names:
+            sq = list(prots[nm])
+            while len(sq) < L:
+                sq.insert(rng.randint(0, len(sq)), "-")
+            rows.append((nm, "".join(sq)))
+        als.append(rows)
+    nts = [(nm, "".join(rng.choice("ACGTacgtN") for _ in range(3 * len(p) + rng.choice([0, 0, 1, 2])))) for nm, p in prots.items()]
+    nts.append(("other", "ACGTAC"))
+    rng.shuffle(nts)
+    return multigen.multi_case(als, ["codonalign", "-f", "nt.fa"], "cli-multi-codonalign", files={"nt.fa": "".join(">%s\n%s\n" % r for r in nts)})
+
+
 def _gen_large(rng, tier):
     for _ in range(2 if tier == "quick" else 10):
         L = rng.choice([4097, 4100, 6001, 12290])
@@ -278,3 +302,4 @@ def gen(rng, tier):
     for _ in range(2 if tier == "quick" else 20):
         for argv in MULTI_CMDS:
             yield multigen.multi_case(multigen.alignments(rng), argv, "cli-multi-" + "-".join(argv[:2]))
+        yield multi_codonalign(rng)
